@@ -2,7 +2,7 @@
 (* Bounded lifecycle model of one miner with the REAL tiny-policy numbers, so that the behaviours TLC
    generates replay 1:1 on the real actors (the driver aligns epoch 0 with a proving-period start). *)
 EXTENDS Sectors, Json, Randomization
-CONSTANTS MaxEpoch, MaxSectors, ExportLen, Rich
+CONSTANTS MaxEpoch, MaxSectors, ExportLen, Rich, WithPC
 VARIABLE hist
 mcvars == <<vars, hist>>
 
@@ -29,6 +29,12 @@ Calls ==
   \cup {Blank @@ [a |-> "DeclareFaults", c |-> c, decls |-> Decl(n)] : c \in Callers, n \in Nos(SM)}
   \cup {Blank @@ [a |-> "DeclareRecovered", c |-> c, decls |-> Decl(n)] : c \in Callers, n \in Nos(SM)}
   \cup {Blank @@ [a |-> "Terminate", c |-> c, decls |-> Decl(n)] : c \in Callers, n \in Nos(SM)}
+  \* the pre-commit path: one sector at a time, proven after the challenge delay (MaxPC epochs are far beyond MaxEpoch,
+  \* so an overdue proof cannot be reached within the bound; the trace binding meets it on real schedules only)
+  \cup (IF WithPC THEN {Blank @@ [a |-> "PreCommit", c |-> c, ns |-> <<n>>, exps |-> <<BaseExp + MaxPC + x>>] :
+                         c \in Callers, n \in Ns, x \in (IF Rich THEN {0, -MaxEpoch - 1} ELSE {0})}
+                    \cup {Blank @@ [a |-> "ProveCommit", c |-> c, ns |-> <<n>>, requireAll |-> FALSE] : c \in Callers, n \in Ns}
+        ELSE {})
   \cup UNION {{Blank @@ [a |-> "Extend", c |-> c, decls |-> DeclX(n, SM.sec[n].exp + x)] : c \in Callers, x \in (IF SM.sec[n].exp < BaseExp + 2 * P THEN {P, -1} ELSE {-1})} : n \in Nos(SM)}
 
 Do(sm, call, e) ==
@@ -38,6 +44,8 @@ Do(sm, call, e) ==
     [] call.a = "DeclareRecovered" -> DeclareRecovered(sm, call.c, call.decls, e)
     [] call.a = "Terminate" -> Terminate(sm, call.c, call.decls, e)
     [] call.a = "Extend" -> Extend(sm, call.c, call.decls, e)
+    [] call.a = "PreCommit" -> PreCommit(sm, call.c, call.ns, call.exps, e)
+    [] call.a = "ProveCommit" -> ProveCommit(sm, call.c, call.ns, call.requireAll, e)
 CallStep(call) ==
   LET r == Do(SM, call, epoch) l == [call EXCEPT !.ok = r.ok] IN
   /\ SM' = r.SM /\ last' = l /\ hist' = Append(hist, l) /\ UNCHANGED epoch
@@ -51,7 +59,7 @@ MCNext == (\E call \in Calls : CallStep(call)) \/ TickStep
 SimNext == \/ \E call \in RandomSubset(20, Calls) : Do(SM, call, epoch).ok /\ CallStep(call)
            \/ \E call \in RandomSubset(2, Calls) : ~Do(SM, call, epoch).ok /\ CallStep(call)
            \/ TickStep \/ TickStep
-MCInit == /\ SM = [sec |-> <<>>, posted |-> [d \in 0..(D - 1) |-> {}], alloc |-> {}, off |-> 0, cron |-> FALSE]
+MCInit == /\ SM = [sec |-> <<>>, posted |-> [d \in 0..(D - 1) |-> {}], alloc |-> {}, off |-> 0, cron |-> FALSE, pre |-> <<>>]
           /\ epoch = 0 /\ last = [a |-> "Init", ok |-> TRUE] /\ hist = <<>> /\ TLCSet(42, {})
 MCSpec == MCInit /\ [][MCNext]_mcvars
 SimSpec == MCInit /\ [][SimNext]_mcvars
@@ -74,6 +82,8 @@ ArgClass(l) ==
   CASE l.a = "CommitNI" -> <<l.c, Len(l.ns), RelDl(l.d), \E i \in 1..Len(l.ns) : l.ns[i] \in SM.alloc>>
     [] l.a = "PoSt" -> <<l.c, [i \in 1..Len(l.parts) |-> <<l.parts[i].i, Cardinality(l.parts[i].skipped)>>], l.proofOK,
                          \E i \in 1..Len(l.parts) : l.parts[i].i \in SM.posted[l.d]>>
+    [] l.a = "PreCommit" -> <<l.c, l.ns[1] \in SM.alloc>>
+    [] l.a = "ProveCommit" -> <<l.c, l.ns[1] \in PreNos(SM), IF l.ns[1] \in PreNos(SM) /\ epoch - SM.pre[l.ns[1]].at <= ChalDelay THEN "early" ELSE "due">>
     [] l.a \in {"DeclareFaults", "DeclareRecovered", "Terminate", "Extend"} ->
            LET n == CHOOSE n \in l.decls[1].s : TRUE IN <<l.c, St(SM, n), RelDl(SM.sec[n].d), SM.sec[n].p \in SM.posted[SM.sec[n].d]>>
     [] OTHER -> "-"
